@@ -1,0 +1,94 @@
+//! Read-only views for the many-connections simulator scenario (`multi`, C09 / C08): what the endpoint's
+//! routing tables say and what a connection itself believes about its connection IDs.
+use std::net::SocketAddr;
+
+use super::super::Connection;
+
+/// `ConnectionMeta` of one slab slot
+#[derive(Debug, Clone, PartialEq, Eq)]
+pub struct MetaView {
+    pub handle: usize,
+    pub server_side: bool,
+    pub init_cid: Vec<u8>,
+    pub cids_issued: u64,
+    /// (sequence, cid), sorted by sequence
+    pub loc_cids: Vec<(u64, Vec<u8>)>,
+    pub remote: SocketAddr,
+    pub reset_token: Option<(SocketAddr, [u8; 16])>,
+}
+
+/// Every routing table of an `Endpoint`, sorted
+#[derive(Debug, Clone, Default, PartialEq, Eq)]
+pub struct EndpointView {
+    /// `connection_ids_initial`: (dcid, Some(connection handle) | None, Some(incoming slot) | None)
+    pub initial: Vec<(Vec<u8>, Option<usize>, Option<usize>)>,
+    /// `connection_ids`
+    pub cids: Vec<(Vec<u8>, usize)>,
+    /// `incoming_connection_remotes` (remote address of the tuple)
+    pub in_remotes: Vec<(SocketAddr, usize)>,
+    /// `outgoing_connection_remotes`
+    pub out_remotes: Vec<(SocketAddr, usize)>,
+    /// `connection_reset_tokens`
+    pub reset_tokens: Vec<(SocketAddr, [u8; 16], usize)>,
+    /// the `connections` slab
+    pub metas: Vec<MetaView>,
+    /// occupied slots of `incoming_buffers`
+    pub incoming_slots: Vec<usize>,
+    /// `local_cid_generator.cid_len()`
+    pub cid_len: usize,
+}
+
+/// A connection's own belief about connection IDs
+#[derive(Debug, Clone, PartialEq, Eq)]
+pub struct ConnCidView {
+    pub server_side: bool,
+    pub cid_len: usize,
+    /// `CidState::issued`
+    pub local_issued: u64,
+    /// `CidState::active_seq`, sorted
+    pub local_active_seq: Vec<u64>,
+    pub retire_prior_to: u64,
+    /// the CID this connection chose for itself during the handshake (sequence 0)
+    pub handshake_cid: Vec<u8>,
+    /// the client's first destination CID
+    pub initial_dst_cid: Vec<u8>,
+    /// sequence number and value of the peer CID packets are addressed to
+    pub rem_active: (u64, Vec<u8>),
+    /// every peer CID currently held: (sequence, cid, reset token)
+    pub rem_cids: Vec<(u64, Vec<u8>, Option<[u8; 16]>)>,
+    /// the stateless reset token this connection accepts from its peer right now
+    pub peer_reset_token: Option<[u8; 16]>,
+}
+
+fn tok(t: &crate::ResetToken) -> [u8; 16] {
+    let mut x = [0u8; 16];
+    x.copy_from_slice(&t[..]);
+    x
+}
+
+impl Connection {
+    /// Read-only projection of the connection-ID bookkeeping (verification hook)
+    pub fn verif_cid_view(&self) -> ConnCidView {
+        let (_, issued, active, _, retire_seq) = self.local_cid_state.verif_state();
+        let (buffer, cursor, offset) = self.rem_cids.verif_state();
+        let n = buffer.len();
+        let mut rem = Vec::new();
+        for step in 0..n {
+            if let Some((cid, t)) = &buffer[(cursor + step) % n] {
+                rem.push((offset + step as u64, cid.to_vec(), t.as_ref().map(tok)));
+            }
+        }
+        ConnCidView {
+            server_side: self.side.is_server(),
+            cid_len: self.local_cid_state.cid_len(),
+            local_issued: issued,
+            local_active_seq: active,
+            retire_prior_to: retire_seq,
+            handshake_cid: self.handshake_cid.to_vec(),
+            initial_dst_cid: self.initial_dst_cid.to_vec(),
+            rem_active: (self.rem_cids.active_seq(), self.rem_cids.active().to_vec()),
+            rem_cids: rem,
+            peer_reset_token: self.peer_params.stateless_reset_token.as_ref().map(tok),
+        }
+    }
+}
